@@ -314,3 +314,10 @@ package types
 //@ func Block.MakePartSet
 //@   trusted
 //@   assigns nothing
+
+// Assumed about the protobuf encoder, as for votes: canonical proposal sign bytes are a function of these fields.
+//@ spec func proposalSignBytes(chainID string, typ int32, height int64, round int32, polRound int32, bhash []byte, ptotal uint32, phash []byte, ts int64) []byte
+//@ func ProposalSignBytes
+//@   trusted
+//@   assigns nothing
+//@   ensures canon: result == proposalSignBytes(chainID, int32(p.Type), p.Height, p.Round, p.PolRound, p.BlockID.Hash, p.BlockID.PartSetHeader.Total, p.BlockID.PartSetHeader.Hash, p.Timestamp)
